@@ -4,6 +4,7 @@ import Mathlib.Algebra.Order.Floor.Ring
 import Mathlib.Analysis.SpecialFunctions.Trigonometric.Inverse
 import Mathlib.Analysis.SpecialFunctions.Log.Basic
 import Mathlib.Analysis.Calculus.Deriv.MeanValue
+import Mathlib.Analysis.Real.Pi.Bounds
 /-!
 # ℝ-side lemmas for the beam model (C13): `fmod` over ℝ, `rem_euclid`, angle normalisation,
 the beam invariant, requested-angle bookkeeping.
